@@ -25,4 +25,9 @@ pub broadcast proof fn axiom_borrow_ref<'a, T>(m: &&'a T)
 {}
 
 
+
+/// `[T]::contains` (T-std). Stated with mathematical equality: sound for the integer element types this crate uses it with.
+pub assume_specification<T: core::cmp::PartialEq> [<[T]>::contains] (s: &[T], x: &T) -> (r: bool)
+    ensures r == s@.contains(*x);
+
 } // verus!
